@@ -1,6 +1,7 @@
 //! srvsim — the real server on simulated byte streams with raw peers.
 
 pub mod batch;
+pub mod httpframing;
 pub mod model;
 pub mod single;
 pub mod stream;
